@@ -42,7 +42,7 @@ def _dominating_call(fi, stmt, name, argtext=None, recv_endswith=None):
     return bool(cs) and q.dominated(fi, cs, stmt)
 
 
-@rule("C02.R1", "C02", "DOM", "every definitional write is dominated by the invalidation of that object", min_instances=14)
+@rule("C02.R1", "C02", "DOM", "every definitional write is dominated by the invalidation of that object", min_instances=14, also=("C01", "C12", "C17",))
 def r1(ctx, R):
     """cells.formula / is_cached / name -> clear_obj(self); space.name -> clear_obj(self) and
     clear_all_cells; reference.interface -> clear_attr_referrers(self); parameter formula ->
@@ -62,6 +62,16 @@ def r1(ctx, R):
             ref = [s2 for s2, t2 in q.attr_writes(fi, attr="altfunc", recv="self")] + q.calls(fi, name="notify", recv="self.altfunc")
             if not ref or not q.followed(fi, st, ref, exits=[fi.cfg.exit]):
                 R.bad(fi, st, "formula replaced but the function that is executed is not rebuilt")
+    coi = ctx.func("CellsImpl.on_inherit")
+    n += 1
+    R.inst("CellsImpl.on_inherit: formula taken from the first base and bound function refreshed on every path "
+           "(reload() rewrites the shared Formula object in place: identity says nothing)")
+    fw_ = [st for st, t in q.attr_writes(coi, attr="formula", recv="self")]
+    nt_ = q.calls(coi, name="notify", recv="self.altfunc")
+    if not fw_ or not nt_ or not coi.cfg.must_pass(q.nodes_for(coi, fw_), coi.cfg.exit, labels=("N", "T", "F")) \
+            or not coi.cfg.must_pass(q.nodes_for(coi, nt_), coi.cfg.exit, labels=("N", "T", "F")):
+        R.bad(coi, coi.node, "a derived cells can keep the function compiled from its base's previous source",
+              stmt="on_inherit refreshes unconditionally")
     rl = ctx.func("UserCellsImpl.reload")
     n += 1
     R.inst("UserCellsImpl.reload: changed source -> clear_obj(self) and altfunc.notify()")
@@ -300,7 +310,7 @@ def r2(ctx, R):
         R.bad(ao, ao.node, "observer link incomplete", stmt="append_observer")
 
 
-@rule("C02.R3", "C02", "TABLE", "observer wiring reaches an invalidation", min_instances=8)
+@rule("C02.R3", "C02", "TABLE", "observer wiring reaches an invalidation", min_instances=8, also=("C09",))
 def r3(ctx, R):
     """LazyEvalChainMap subscribes to each map; space and cells subscribe to the space's
     namespace; on_namespace_change overrides invalidate (cells: clear_all_values; space:
